@@ -36,7 +36,7 @@ func c15Setup(env *kernel.Env, w *World, s *Sess) *c15World {
 	T := env.T
 	cw := &c15World{w: w, env: env, sigCol: -1}
 	opts := SchemaOpts{Keyless: true, Composite: true, Checks: true, Defaults: true, NotNull: true, StrPK: true, PrefixKeys: false,
-		Generated: true, NoVirtual: env.Avoid("replace-virtual-unique-panic"), AutoInc: false}
+		Generated: true, NoVirtual: env.Avoid("virtual-generated-dml"), AutoInc: false}
 	cw.t = GenTable(T, "t", opts)
 	for _, c := range cw.t.Cols {
 		if c.GenFrom >= 0 && !c.Stored {
@@ -48,6 +48,9 @@ func c15Setup(env *kernel.Env, w *World, s *Sess) *c15World {
 		}
 	}
 	s.MustExec(cw.t.DDL())
+	if hasVirtual(cw.t) {
+		env.ClassPrefix = "virtual-generated/"
+	}
 	cw.tables = append(cw.tables, cw.t)
 	env.Logf("schema: %s", cw.t.DDL())
 	if T.Bool(1, 3) {
